@@ -162,6 +162,73 @@ def rule_a(ctx):
                     if (is_enq(c.data[1]) and is_deq_or_closed(c.data[2])) or (is_enq(c.data[2]) and is_deq_or_closed(c.data[1])):
                         okc = True
         ctx.ob("pop|closed-only-when-drained", okc, "Closed is reported only if the enqueue position equals dequeue position | closed flag (no push in flight)", closed)
+    # ---- data: which slot, which stamp (operand-level checks; a wrong mask / operand here keeps every call and branch in place)
+    def _index_origins(body):
+        out = []
+        for st in body.assigns():
+            r = st.node["r"]
+            if r["r"] == "ref":
+                for el in r["pl"]["p"]:
+                    if el != "*" and el[0] == "i":
+                        out.append((st, body.place_origins({"l": el[1], "p": []}, st)))
+        return out
+
+    def _is_pos_and_right_mask(o, field):
+        if not (isinstance(o, tuple) and o[0] == "bin" and o[1] == "BitAnd"):
+            return False
+        for x, y in ((o[2], o[3]), (o[3], o[2])):
+            if origin_proj_names(y)[1][-1:] != [("f", "right_mask")]:
+                continue
+            xs = x[1] if isinstance(x, tuple) and x and x[0] == "multi" else (x,)
+            good = True
+            for z in xs:
+                rt, names = origin_proj_names(z)
+                if not (isinstance(rt, tuple) and rt[0] == "call"):
+                    good = False
+                    continue
+                site = Site(body_for_idx[0], rt[1], TERM)
+                fld = atomics.receiver_field(body_for_idx[0], site)
+                if fld != field:
+                    good = False
+            if good:
+                return True
+        return False
+    body_for_idx = [pop]
+    io = _index_origins(pop)
+    ctx.ob("pop|slot-is-dequeue-index", bool(io) and all(len(o) == 1 and _is_pos_and_right_mask(next(iter(o)), "dequeue_pos") for _, o in io),
+           "pop addresses the slot dequeue_pos & right_mask", [st for st, _ in io])
+    body_for_idx[0] = push
+    io = _index_origins(push)
+    ctx.ob("push|slot-is-enqueue-index", bool(io) and all(len(o) == 1 and _is_pos_and_right_mask(next(iter(o)), "enqueue_pos") for _, o in io),
+           "push addresses the slot enqueue_pos & right_mask (the position just loaded / returned by the failed CAS)", [st for st, _ in io])
+    pcl = [c for c in P.children(pop) if any(True for _ in c.aggregates(adt="channel::queue::MessageBorrow"))]
+    okb = len(pcl) == 1
+    bsites = []
+    if okb:
+        cb = pcl[0]
+        for a in cb.aggregates(adt="channel::queue::MessageBorrow"):
+            bsites.append(a)
+            fo = dict(zip(a.node["r"]["fields"], a.node["r"]["ops"]))
+            body_for_idx[0] = pop
+            idx = P.resolved_origins(cb, fo["index"], a) if "index" in fo else frozenset()
+            okb = okb and len(idx) == 1 and _is_pos_and_right_mask(next(iter(idx)), "dequeue_pos")
+            so = P.resolved_origins(cb, fo["stamp"], a) if "stamp" in fo else frozenset()
+            good = False
+            for x in so:
+                if x[0] == "call" and x[2].endswith("wrapping_add"):
+                    # the addition is made inside the closure on the captured stamp
+                    ws = Site(cb, x[1], TERM)
+                    if (ws.callee or "") != x[2] or len(ws.args()) < 2:
+                        continue
+                    a0 = P.resolved_origins(cb, ws.args()[0], ws)
+                    a1 = P.resolved_origins(cb, ws.args()[1], ws)
+                    if loads and a0 == frozenset([("call", loads[0].b, loads[0].callee)]) and \
+                            all(origin_proj_names(y)[1][-1:] == [("f", "right_mask")] for y in a1) and a1:
+                        good = True
+            okb = okb and good
+    ctx.ob("pop|borrow-carries-slot-and-next-stamp", okb,
+           "the borrow handed out by pop records the popped slot's index and, as the stamp to publish on release, the loaded stamp + right_mask "
+           "(i.e. position + capacity-lap - 1: free for the next lap)", bsites)
     # ---- MessageBorrow::drop releases the slot with the stamp computed by pop
     db = ctx.body("<channel::queue::MessageBorrow as std::ops::Drop>::drop")
     if db:
